@@ -8,6 +8,16 @@ SMT = "bounded SMT (z3) over SQL regenerated from /repo's transpiler + macro fil
 CH = "CrossHair (symbolic execution of the repository's Python with z3), per-condition 'Confirmed over all paths'; counterexamples re-executed in a plain interpreter"
 
 CHECKS = {
+    "C01": dict(
+        technique="bounded SMT (z3) equivalence between the SQL regenerated from the real transpiler and a VTL reference interpreter over symbolic tables; models replayed through run()",
+        text="For ~200 (quick) / ~260 (thorough) script templates covering every element-wise operator group at dataset/dataset (equal and nested identifier sets), "
+             "dataset/scalar, scalar/dataset, component/component and component/scalar level plus depth-2/3 compositions, the SQL the real transpiler emits "
+             "(macros inlined from init.sql) is evaluated symbolically over ALL input tables of 2 (quick) / 3 (thorough) datapoints per dataset with nullable measures, "
+             "and z3 decides that its result equals the VTL reference (matching on common identifiers, per-measure application, null propagation, Kleene logic, "
+             "absent partners, division by zero => runtime error). unsat = holds within the bound; every sat model is replayed through the real run().",
+        note="Trusted: sqlglot + my SQL semantics (self-checked per template against real DuckDB on random concrete tables on every run), z3, AST shapes. Reals stand for DOUBLE; "
+             "round/ln/exp/... are uninterpreted symbols shared with the reference. More than 3 datapoints per dataset is outside.",
+        ref="3 C01", engine="sqlsmt"),
     "C11": dict(
         technique="CrossHair symbolic execution of the real promotion functions and operator classes over symbolic type indices",
         text="Every obligation is a CrossHair condition over symbolic operand-type indices (all 9x9 pairs, all 9 unary types) calling the "
